@@ -142,6 +142,9 @@ class DataCondition(Condition):
         if self.constrain_fn:
             model_out = self.constrain_fn({**model_out.coordinates, **x.coordinates})
         else:
+            # pair the columns by name: the targets may list the output variables
+            # in another order than the model
+            y = y[..., list(model_out.space.keys())]
             model_out = model_out.as_tensor
         return torch.abs(model_out - y.as_tensor)
 
